@@ -145,11 +145,11 @@ pub trait DecisionNNFBuilder<'a>: TopDownBuilder<'a, BddPtr<'a>> {
         match bdd {
             BddPtr::PtrTrue | BddPtr::PtrFalse => bdd,
             BddPtr::Reg(node) | BddPtr::Compl(node) if node.var == lbl => {
-                let r = if value { bdd.high() } else { bdd.low() };
-                if bdd.is_neg() {
-                    r.neg()
+                // `low()`/`high()` already account for a complemented pointer
+                if value {
+                    bdd.high()
                 } else {
-                    r
+                    bdd.low()
                 }
             }
             BddPtr::Reg(node) | BddPtr::Compl(node) => {
@@ -162,21 +162,12 @@ pub trait DecisionNNFBuilder<'a>: TopDownBuilder<'a, BddPtr<'a>> {
                 let l = self.cond_helper(bdd.low(), lbl, value);
                 let h = self.cond_helper(bdd.high(), lbl, value);
                 if l == h {
-                    if bdd.is_neg() {
-                        return l.neg();
-                    } else {
-                        return l;
-                    };
+                    return l;
                 };
                 let res = if l != bdd.low() || h != bdd.high() {
                     // cache and return the new BDD
                     let new_bdd = BddNode::new(node.var, l, h);
-                    let r = self.get_or_insert(new_bdd);
-                    if bdd.is_neg() {
-                        r.neg()
-                    } else {
-                        r
-                    }
+                    self.get_or_insert(new_bdd)
                 } else {
                     bdd
                 };
